@@ -4,7 +4,12 @@
    3 = the stop request on thread B with the stop callback, 4 = destruction of the operation by the
    receiver's owner once completed.  Parameters: first (how the value completion arrives: FSync in
    the start event, FInl the start event calls its own safe callback, FSafe / FUnsafe from thread
-   1, FNone never), second (thread 2 exists; ignored when first = FUnsafe, see has_second). *)
+   1, FNone never), second (thread 2 exists; ignored when first = FUnsafe, see has_second),
+   breq (the body event that calls set_value also calls request_stop() on the operation's own stop
+   source: BNo never, BValStop right after the set_value, BStopVal right before it: the stop
+   callback then runs re-entrantly on the same thread under the recursive mutex), restop (the stop
+   event calls request_stop() again).  5 * 2 * 3 * 2 = 60 parameter values, every theorem below is
+   for all of them and all schedules. *)
 From Coq Require Import List Bool Arith.
 From V Require Import Base.Sched Proto.BasicSenderDefs Proto.BasicSenderProofs.
 Import ListNotations.
@@ -34,6 +39,28 @@ Theorem C19_basicsender_side_conditions : forall (p : params) (sched : list nat)
   (res s = Some ODone -> src s = true).
 Proof. exact completion_side_conditions. Qed.
 Print Assumptions C19_basicsender_side_conditions.
+
+(* the stop event is dispatched at most once and only to an operation that was started and has not
+   finished (badstop counts the stop events dispatched in a phase other than started: before the
+   start event, or after a set_value / set_done already finished the operation - the latter is what
+   a re-entrant stop request from inside a body event would do if _stop_callback did not test
+   finished() under the lock) *)
+Theorem C19_basicsender_stop_dispatch : forall (p : params) (sched : list nat),
+  let s := fst (run (step p) sched (init p, [])) in
+  nstop s <= 1 /\ badstop s = 0 /\ (nstop s = 0 \/ nstart s = 1).
+Proof. exact stop_dispatch. Qed.
+Print Assumptions C19_basicsender_stop_dispatch.
+
+(* a completion signal already chosen is never overridden: calls is the append-only list of the
+   body's set_value / set_done calls (first_call = the oldest); the deferred result is the first
+   one, and the single completion of the receiver is that one *)
+Theorem C19_basicsender_first_decision_wins : forall (p : params) (sched : list nat),
+  let s := fst (run (step p) sched (init p, [])) in
+  length (completions s) <= 1 /\
+  (forall o, first_call s = Some o -> res s = Some o) /\
+  (forall o o', first_call s = Some o -> completions s = [o'] -> o' = o).
+Proof. exact first_decision_wins. Qed.
+Print Assumptions C19_basicsender_first_decision_wins.
 
 (* quiet_after_completion / "late safe callbacks become no-ops".  FULL STATEMENT:
      forall p sched, late (fst (run (step p) sched (init p, []))) = 0.
@@ -66,7 +93,7 @@ Print Assumptions C19_basicsender_invariant.
    operation but is not the outermost lock holder, so start_impl completes after it returned; a
    second safe callback arriving later finds the cell expired and does nothing *)
 Example C19_basicsender_example_recursion :
-  let p := {| first := FInl; second := true |} in
+  let p := {| first := FInl; second := true; breq := BNo; restop := false |} in
   let c := run (step p) [0; 0; 0; 0; 0; 0; 0; 0; 0; 2; 2; 4] (init p, []) in
   quiescent p (fst c) = false /\ step p 3 (fst c) <> None /\
   completions (fst c) = [OVal] /\ late (fst c) = 0 /\ ncallback (fst c) = 1 /\
@@ -77,10 +104,37 @@ Proof. vm_compute. repeat split; try reflexivity; discriminate. Qed.
 (* stop before start: the stop callback runs inline in its registration, marks stopped_early;
    start_impl skips the start event and completes with done *)
 Example C19_basicsender_example_stop_before_start :
-  let p := {| first := FSafe; second := false |} in
+  let p := {| first := FSafe; second := false; breq := BNo; restop := false |} in
   let c := run (step p) [3; 0; 0; 0; 0; 0; 0; 4] (init p, []) in
   quiescent p (fst c) = true /\ completions (fst c) = [ODone] /\ nstart (fst c) = 0 /\
   nstop (fst c) = 0 /\
   snd c = [ESet; EReg true; ELock 0 1; EUnlock 1 0; ELock 0 1; EUnlock 1 0; ERoot ODone;
            EDestroyed].
+Proof. vm_compute. repeat split; reflexivity. Qed.
+
+(* the callback event on thread 1 calls set_value and then request_stop() on the operation's own
+   source: the stop callback runs inline (lock 1->2), finds the operation finished and returns
+   without dispatching the stop event; the outermost frame delivers the value; the later request
+   of thread 3 is a no-op *)
+Example C19_basicsender_example_value_then_nested_stop :
+  let p := {| first := FSafe; second := false; breq := BValStop; restop := false |} in
+  let c := run (step p) ([0; 0; 0; 0] ++ repeat 1 12 ++ [4; 3]) (init p, []) in
+  quiescent p (fst c) = true /\ completions (fst c) = [OVal] /\ nstop (fst c) = 0 /\
+  calls (fst c) = [OVal] /\ late (fst c) = 0 /\
+  snd c = [EReg false; ELock 0 1; EBStart; EUnlock 1 0; ECall 1; ELock 0 1; EBCallback; ESet;
+           ELock 1 2; EUnlock 2 1; ECbS; EUnlock 1 0; EDereg; ERoot OVal; ERet 1; EDestroyed;
+           ESetNo].
+Proof. vm_compute. repeat split; reflexivity. Qed.
+
+(* the start event calls its own safe callback, whose event calls request_stop() and then
+   set_value: the stop event is dispatched at recursion depth 3 to a started, unfinished operation
+   and chooses done; the later set_value is ignored; start_impl, the outermost frame, delivers
+   done after both nested frames returned *)
+Example C19_basicsender_example_nested_stop_then_value :
+  let p := {| first := FInl; second := false; breq := BStopVal; restop := true |} in
+  let c := run (step p) (repeat 0 17 ++ [4; 3]) (init p, []) in
+  quiescent p (fst c) = true /\ completions (fst c) = [ODone] /\ nstop (fst c) = 1 /\
+  badstop (fst c) = 0 /\ calls (fst c) = [OVal; ODone] /\ first_call (fst c) = Some ODone /\
+  snd c = [EReg false; ELock 0 1; EBStart; ELock 1 2; EBCallback; ESet; ELock 2 3; EBStop; ESetNo;
+           EUnlock 3 2; ECbS; EUnlock 2 1; EUnlock 1 0; EDereg; ERoot ODone; EDestroyed; ESetNo].
 Proof. vm_compute. repeat split; reflexivity. Qed.
